@@ -268,6 +268,9 @@ func templateDataRule(o *Ob) {
 	// each set starts as a copy of the first alert's, every later alert is compared with both sets, a pair is
 	// deleted exactly when that alert's value differs, and the comparison may stop early only when both sets are empty
 	for _, kind := range []string{"Labels", "Annotations"} {
+		if commonsOverCollectedSets(o, fn, kind) {
+			continue
+		}
 		set := "(model.LabelSet).Clone(p4[0].Alert." + kind + ")"
 		var del *ssa.Call
 		for _, in := range AllInstrs(fn) {
@@ -492,9 +495,20 @@ func sliceBoundsRule(o *Ob) {
 
 func sliceHighBounded(e *Eng, fn *ssa.Function, sl *ssa.Slice, base ssa.Value) bool {
 	lens := []string{"len(" + e.X(fn, base) + ")", "len(" + e.X(fn, sl.X) + ")"}
+	// the number of runes of a string is the length of its rune slice
+	for _, x := range []string{e.X(fn, base), e.X(fn, sl.X)} {
+		if strings.HasPrefix(x, "conv:[]rune(") && strings.HasSuffix(x, ")") {
+			lens = append(lens, "unicode/utf8.RuneCountInString("+x[len("conv:[]rune("):len(x)-1]+")")
+		}
+	}
 	isLenOfBase := func(v ssa.Value) bool {
 		s := e.X(fn, v)
-		return s == lens[0] || s == lens[1]
+		for _, l := range lens {
+			if s == l {
+				return true
+			}
+		}
+		return false
 	}
 	// prefixOfBase: y is base, a prefix of it, or the sliced value itself (possibly through phis)
 	var prefixOfBase func(y ssa.Value, seen map[ssa.Value]bool) bool
@@ -531,6 +545,8 @@ func sliceHighBounded(e *Eng, fn *ssa.Function, sl *ssa.Slice, base ssa.Value) b
 				lits := []LitM{
 					LRe(`\(`+hq+` < `+lq+`\)`, true),  // h < len
 					LRe(`\(`+lq+` < `+hq+`\)`, false), // ¬(len < h)
+					LRe(`\(`+lq+` <= `+hq+`\)`, false), // ¬(len ≤ h)
+					LRe(`\(`+hq+` >= `+lq+`\)`, false), // ¬(h ≥ len)
 					LRe(`\(`+hq+` == `+lq+`\)|\(`+lq+` == `+hq+`\)`, true),
 				}
 				if e.OnlyUnder(sl, lits...) || a != nil && e.AltUnder(*a, lits...) {
@@ -608,7 +624,7 @@ func sliceHighBounded(e *Eng, fn *ssa.Function, sl *ssa.Slice, base ssa.Value) b
 func init() {
 	reg("C20", "C20.10", "T1,T12", "truncation never cuts beyond the text: every prefix cut x[:h] in TruncateInRunes, TruncateInBytes and the webhook's truncateAlerts is made under evidence that h ≤ len(x) (a bound on the same sequence, a shrinking prefix, or min)", func(o *Ob) {
 		sliceBoundsRule(o)
-		o.MinSites(4)
+		o.MinSites(3)
 	})
 }
 
@@ -721,4 +737,139 @@ func counterBelowLen(e *Eng, fn *ssa.Function, phi *ssa.Phi, isLen func(ssa.Valu
 		}
 	}
 	return incs > 0
+}
+
+// commonsOverCollectedSets: the common labels / annotations computed as an intersection over a list of the
+// alerts' sets: the sets of all alerts of the batch are collected into a list S; the result M is a map made
+// here, filled with every pair of S[0]; for every later set S[1:][i] every pair of M is compared with that
+// set's value for the name and deleted exactly when it differs; the comparison with later sets may stop early
+// only when M is empty; Data.Common<kind> is M (or an empty map when there are no alerts).
+func commonsOverCollectedSets(o *Ob, fn *ssa.Function, kind string) bool {
+	e := o.E
+	sts := e.StoresToField(fn, "am/template.Data", "Common"+kind)
+	if len(sts) != 1 {
+		return false
+	}
+	var M *ssa.MakeMap
+	var del *ssa.Call
+	for _, a := range AltsOf(sts[0].Val) {
+		mm, ok := a.V.(*ssa.MakeMap)
+		if !ok {
+			continue
+		}
+		for _, r := range *mm.Referrers() {
+			if c, ok := r.(*ssa.Call); ok && isBuiltinCall("delete")(c) && c.Call.Args[0] == ssa.Value(mm) {
+				M, del = mm, c
+			}
+		}
+	}
+	if M == nil {
+		return false
+	}
+	o.Site(del, "common "+kind+" lose a pair (intersection over the collected sets)")
+	for _, a := range AltsOf(sts[0].Val) {
+		if a.V == ssa.Value(M) {
+			continue
+		}
+		mm, ok := a.V.(*ssa.MakeMap)
+		empty := ok
+		if ok {
+			for _, r := range *mm.Referrers() {
+				if _, isUp := r.(*ssa.MapUpdate); isUp {
+					empty = false
+				}
+			}
+		}
+		o.Check(empty, "common-result|"+kind, "Data.Common"+kind+" may be "+clip(e.X(fn, a.V))+", which is neither the intersection nor an empty set", sts[0])
+	}
+	// the list S of all alerts' sets
+	var S ssa.Value
+	var fill *ssa.MapUpdate
+	for _, r := range *M.Referrers() {
+		if mu, ok := r.(*ssa.MapUpdate); ok && mu.Map == ssa.Value(M) {
+			if !o.Check(fill == nil, "common-fill|"+kind, "the common "+kind+" are filled in more than one place", mu) {
+				continue
+			}
+			fill = mu
+		}
+	}
+	if !o.Check(fill != nil, "common-delete|"+kind, "the common "+kind+" no longer start from the first alert's "+kind, del) {
+		return true
+	}
+	fl := e.LoopOf(fill)
+	var first *ssa.Range
+	if fl != nil {
+		for bi := range fl.Blocks {
+			for _, in := range fn.Blocks[bi].Instrs {
+				if nx, ok := in.(*ssa.Next); ok {
+					if rg, ok := nx.Iter.(*ssa.Range); ok {
+						first = rg
+					}
+				}
+			}
+		}
+	}
+	if !o.Check(first != nil && len(e.EarlyExits(fl)) == 0 && !loopBackWithout(o, fl, IsInstr(fill), nil), "common-fill|"+kind, "every pair of the first alert's "+kind+" must go into the common set", fill) {
+		return true
+	}
+	kx, vx := "next(range("+e.X(fn, first.X)+"))#1", "next(range("+e.X(fn, first.X)+"))#2"
+	o.Check(e.X(fn, fill.Key) == kx && e.X(fn, fill.Value) == vx, "common-fill|"+kind, "the common set must start as the first alert's pairs unchanged, is filled with "+clip(e.X(fn, fill.Key))+" → "+clip(e.X(fn, fill.Value)), fill)
+	if u, ok := first.X.(*ssa.UnOp); ok {
+		if ia, ok := u.X.(*ssa.IndexAddr); ok && e.X(fn, ia.Index) == "0" {
+			S = ia.X
+		}
+	}
+	if !o.Check(S != nil, "common-fill|"+kind, "the common set must start from the first of the collected sets, starts from "+clip(e.X(fn, first.X)), fill) {
+		return true
+	}
+	_, parts := e.AppendParts(S)
+	o.Check(len(parts) >= 1, "common-sets|"+kind, "the sets the intersection runs over are not collected from the batch", fill)
+	for _, p := range parts {
+		l := e.LoopOf(p.Call)
+		okPart := !p.Spread && strings.HasSuffix(e.X(fn, p.V), "p4)[i]."+kind) || strings.HasSuffix(e.X(fn, p.V), "p4[i].Alert."+kind) || strings.HasSuffix(e.X(fn, p.V), "p4[i]."+kind)
+		o.Check(okPart, "common-sets|"+kind, "the intersection runs over "+clip(e.X(fn, p.V))+", not over every alert's "+kind, p.Call)
+		o.Check(l != nil && len(e.EarlyExits(l)) == 0 && !loopBackWithout(o, l, IsInstr(p.Call), nil), "common-skip|"+kind, "an alert's "+kind+" can be left out of the intersection", p.Call)
+	}
+	// the reduction
+	inner := e.LoopOf(del)
+	if !o.Check(inner != nil, "common-inner|"+kind, "pairs must be checked in a loop over the common set", del) {
+		return true
+	}
+	var over *ssa.Range
+	for bi := range inner.Blocks {
+		for _, in := range fn.Blocks[bi].Instrs {
+			if nx, ok := in.(*ssa.Next); ok {
+				if rg, ok := nx.Iter.(*ssa.Range); ok && rg.X == ssa.Value(M) {
+					over = rg
+				}
+			}
+		}
+	}
+	o.Check(over != nil && len(e.EarlyExits(inner)) == 0, "common-inner-range|"+kind, "every pair of the common "+kind+" must be compared", del)
+	mx := e.X(fn, M)
+	k, v := "next(range("+mx+"))#1", "next(range("+mx+"))#2"
+	o.Check(e.X(fn, del.Call.Args[1]) == k, "common-delete-key|"+kind, "the pair removed must be the one compared", del)
+	later := "slice(" + e.X(fn, S) + ",lo=1)[i]"
+	other := later + "[" + k + "]"
+	same := LitM{"the later alert has the same value", func(l Lit) bool {
+		eq := l.Atom == "("+v+" == "+other+")" || l.Atom == "("+other+" == "+v+")"
+		ne := l.Atom == "("+v+" != "+other+")" || l.Atom == "("+other+" != "+v+")"
+		return eq && l.Pos || ne && !l.Pos
+	}}
+	o.Check(e.CountLitEdges(fn, same)+e.CountLitEdges(fn, same.Neg()) > 0, "common-delete-guard|"+kind, "the common "+kind+" are no longer compared with the later alerts' values", del)
+	o.Guarded(del, "common-delete-guard|"+kind, "removing a pair from the common "+kind, same.Neg())
+	o.Check(!loopBackWithout(o, inner, IsInstr(del), e.CutContradicting(same.Neg())), "common-delete-forced|"+kind, "a pair a later alert does not share can stay in the common "+kind, del)
+	var outer *Loop
+	for _, l := range e.Loops(fn) {
+		if l.Header != inner.Header && l.Blocks[inner.Header.Index] && (outer == nil || len(l.Blocks) < len(outer.Blocks)) {
+			outer = l
+		}
+	}
+	if o.Check(outer != nil, "common-outer|"+kind, "the common "+kind+" must be compared with every later alert", del) {
+		oc, kindOf := e.RangeOver(outer)
+		o.Check(oc == "slice("+e.X(fn, S)+",lo=1)" && kindOf == "index", "common-outer-range|"+kind, "the comparison must run over the sets after the first, runs over "+clip(oc), del)
+		o.LoopExitsGuarded(outer, "common-early-exit|"+kind+"|"+kind, "the comparison with later alerts may stop early only when the common set is empty", L("(len("+mx+") == 0)", true))
+		o.Check(!loopBackWithout(o, outer, func(in ssa.Instruction) bool { return in == ssa.Instruction(over) }, nil), "common-skip|"+kind, "a later alert can be skipped when the common "+kind+" are reduced", del)
+	}
+	return true
 }
